@@ -1,73 +1,21 @@
 /-
-Model of the construction pipeline after pattern insertion: fail links and output lists
-(src/nfa_builder.rs:123-225), the free-slot bookkeeping (src/build_helper.rs), the code mapper
-(src/charwise/mapper.rs) and both double-array layout passes (src/bytewise/builder.rs,
-src/charwise/builder.rs). All of it is a function of the trie built by `Daac.buildTrie` (and of
-the configuration), which is what makes construction order-independent in the model.
+Model of the construction pipeline after the sparse NFA exists: the free-slot bookkeeping
+(src/build_helper.rs), the code mapper (src/charwise/mapper.rs) and both double-array layout
+passes (src/bytewise/builder.rs, src/charwise/builder.rs). Everything is a function of the trie
+built by `Daac.buildTrie`, the NFA of `Daac.buildNfa` and the configuration, which is what makes
+construction order-independent in the model.
 
-This file is an executable transcription (loops with explicit fuel, asserts and `unwrap`s as
-`BuildErr.panic`); it is tied to the implementation by suite K-build (identical tables).
+Loops are structural or fuel-bounded recursions; asserts, `unwrap`s and out-of-range `Vec`
+indexing are `BuildErr.panic`. Trie nodes are named by their path (`idx : path ↦ array index`
+replaces `state_id_map`). Tied to the implementation by suite K-build (identical tables).
 -/
 import Daac.Model.Trie
 import Daac.Model.Nfa
 namespace Daac
 variable {V : Type}
 
-/-- Flattened trie node: children `(label, id)` in label order and the registered output. -/
-structure FNode (V : Type) where
-  edges : Array (Nat × Nat)
-  out : Option (V × Nat)
-
-instance {V : Type} : Inhabited (FNode V) := ⟨⟨#[], none⟩⟩
-
 def rootId : Nat := Gen.rootStateId
 def deadId : Nat := Gen.deadStateId
-
-mutual
-def Trie.flattenInto : Trie V → Array (FNode V) → Nat × Array (FNode V)
-  | .node out kids, arr =>
-    let id := arr.size
-    let arr := arr.push ⟨#[], out⟩
-    let r := kids.flattenInto arr #[]
-    (id, r.2.set! id ⟨r.1, out⟩)
-def Kids.flattenInto : Kids V → Array (FNode V) → Array (Nat × Nat) →
-    Array (Nat × Nat) × Array (FNode V)
-  | .nil, arr, es => (es, arr)
-  | .cons l t r, arr, es =>
-    let p := t.flattenInto arr
-    r.flattenInto p.2 (es.push (l, p.1))
-end
-
-/-- Nodes in pre-order with the root at id 0 and the (childless) dead state at id 1. -/
-def Trie.flatten (t : Trie V) : Array (FNode V) :=
-  let arr : Array (FNode V) := #[⟨#[], t.out⟩, ⟨#[], none⟩]
-  let r := t.kids.flattenInto arr #[]
-  r.2.set! 0 ⟨r.1, t.out⟩
-
-def childId (ns : Array (FNode V)) (s c : Nat) : Option Nat :=
-  match ns[s]? with
-  | some n => (n.edges.find? (fun e => e.1 == c)).map (·.2)
-  | none => none
-
-/-- The fail links and output positions of `buildNfa`, re-indexed by the ids of `Trie.flatten`
-(pre-order, dead state at id 1): what the layout passes read. -/
-def nfaArrays (t : Trie V) (nfa : Nfa V) : Array Nat × Array Nat := Id.run do
-  let paths := (t.paths []).toArray
-  let n := paths.size + 1
-  let mut idOf : Std.HashMap (List Nat) Nat := {}
-  for k in [0:paths.size] do
-    idOf := idOf.insert paths[k]! (if k = 0 then rootId else k + 1)
-  let mut fail : Array Nat := Array.replicate n rootId
-  let mut opos : Array Nat := Array.replicate n 0
-  for k in [0:paths.size] do
-    let p := paths[k]!
-    let i := if k = 0 then rootId else k + 1
-    let f := match nfa.fail.get p with
-      | .dead => deadId
-      | .node u => idOf.getD u rootId
-    fail := fail.set! i f
-    opos := opos.set! i (nfa.out.opos.getD p 0)
-  return (fail, opos)
 
 /-! ### `BuildHelper` -/
 
@@ -101,172 +49,141 @@ def Helper.off (h : Helper) (idx : Nat) : Except BuildErr Nat :=
   if h.activeStart * h.blockLen ≤ idx && idx < h.numBlocks * h.blockLen then .ok (idx % h.cap)
   else .error (.panic "assert!(active_index_range().contains(&idx))")
 
-def Helper.isUsedBase (h : Helper) (b : Nat) : Except BuildErr Bool := do
-  return h.usedBase[← h.off b]!
-def Helper.isUsedIndex (h : Helper) (i : Nat) : Except BuildErr Bool := do
-  return h.usedIndex[← h.off i]!
-def Helper.useBase (h : Helper) (b : Nat) : Except BuildErr Helper := do
-  return { h with usedBase := h.usedBase.set! (← h.off b) true }
+def Helper.isUsedBase (h : Helper) (b : Nat) : Except BuildErr Bool :=
+  match h.off b with
+  | .error e => .error e
+  | .ok o => .ok (h.usedBase.getD o false)
 
-def Helper.useIndex (h : Helper) (idx : Nat) : Except BuildErr Helper := do
-  let o ← h.off idx
-  if h.usedIndex[o]! then throw (.panic "debug_assert!(!is_used_index(idx))")
-  let nx := h.next[o]!
-  let pv := h.prev[o]!
-  let h := { h with usedIndex := h.usedIndex.set! o true }
-  let po ← h.off pv
-  let h := { h with next := h.next.set! po nx }
-  let no ← h.off nx
-  let h := { h with prev := h.prev.set! no pv }
-  match h.head with
-  | none => throw (.panic "head_idx.unwrap()")
-  | some hd => return if hd == idx then { h with head := if nx != idx then some nx else none } else h
+def Helper.isUsedIndex (h : Helper) (i : Nat) : Except BuildErr Bool :=
+  match h.off i with
+  | .error e => .error e
+  | .ok o => .ok (h.usedIndex.getD o false)
 
-def Helper.pushBlock (h0 : Helper) : Except BuildErr Helper := do
-  let mut h := h0
-  if h.numElements > u32Max - h.blockLen then throw .automatonScale
-  match h.droppedBlock with
-  | some cb =>
-    let endIdx := (cb + 1) * h.blockLen
-    for _ in [0:h.blockLen + 1] do
-      match h.head with
-      | none => break
+def Helper.useBase (h : Helper) (b : Nat) : Except BuildErr Helper :=
+  match h.off b with
+  | .error e => .error e
+  | .ok o => .ok { h with usedBase := h.usedBase.setIfInBounds o true }
+
+/-- `use_index`: mark used, unlink from the circular vacant list, advance the head if needed. -/
+def Helper.useIndex (h : Helper) (idx : Nat) : Except BuildErr Helper :=
+  match h.off idx with
+  | .error e => .error e
+  | .ok o =>
+    if h.usedIndex.getD o false then .error (.panic "debug_assert!(!is_used_index(idx))") else
+    let nx := h.next.getD o 0
+    let pv := h.prev.getD o 0
+    match h.off pv with
+    | .error e => .error e
+    | .ok po =>
+      match h.off nx with
+      | .error e => .error e
+      | .ok no =>
+        match h.head with
+        | none => .error (.panic "head_idx.unwrap()")
+        | some hd =>
+          .ok { h with usedIndex := h.usedIndex.setIfInBounds o true,
+                       next := h.next.setIfInBounds po nx,
+                       prev := h.prev.setIfInBounds no pv,
+                       head := if hd = idx then (if nx ≠ idx then some nx else none) else some hd }
+
+/-- The `while let Some(head_idx)` loop of `push_block`: mark the leftovers of the closed block
+(vacant indices below `endIdx`) used. -/
+def Helper.closeLoop : Nat → Nat → Helper → Except BuildErr Helper
+  | 0, _, _ => .error (.panic "closing a block does not terminate")
+  | fuel + 1, endIdx, h =>
+    match h.head with
+    | none => .ok h
+    | some hd =>
+      if endIdx ≤ hd then .ok h else
+      match h.useIndex hd with
+      | .error e => .error e
+      | .ok h' => h'.closeLoop fuel endIdx
+
+/-- The `for idx in old_len..new_len` loop of `push_block`: reset the items of the new block and
+chain them `idx-1 ← idx → idx+1`. -/
+def Helper.resetLoop : Nat → Nat → Helper → Except BuildErr Helper
+  | 0, _, h => .ok h
+  | n + 1, idx, h =>
+    match h.off idx with
+    | .error e => .error e
+    | .ok o =>
+      Helper.resetLoop n (idx + 1)
+        { h with next := h.next.setIfInBounds o (idx + 1),
+                 prev := h.prev.setIfInBounds o (if idx = 0 then u32Max else idx - 1),
+                 usedBase := h.usedBase.setIfInBounds o false,
+                 usedIndex := h.usedIndex.setIfInBounds o false }
+
+/-- `push_block`. -/
+def Helper.pushBlock (h0 : Helper) : Except BuildErr Helper :=
+  if h0.numElements > u32Max - h0.blockLen then .error .automatonScale else
+  let closed : Except BuildErr Helper :=
+    match h0.droppedBlock with
+    | some cb => h0.closeLoop (h0.blockLen + 1) ((cb + 1) * h0.blockLen)
+    | none => .ok h0
+  match closed with
+  | .error e => .error e
+  | .ok h1 =>
+    let oldLen := h1.numElements
+    let newLen := oldLen + h1.blockLen
+    match Helper.resetLoop h1.blockLen oldLen { h1 with numBlocks := h1.numBlocks + 1 } with
+    | .error e => .error e
+    | .ok h2 =>
+      match h2.head with
       | some hd =>
-        if endIdx ≤ hd then break
-        h ← h.useIndex hd
-  | none => pure ()
-  let oldLen := h.numElements
-  let newLen := oldLen + h.blockLen
-  h := { h with numBlocks := h.numBlocks + 1 }
-  for idx in [oldLen:newLen] do
-    let o ← h.off idx
-    h := { h with next := h.next.set! o (idx + 1),
-                  prev := h.prev.set! o (if idx = 0 then u32Max else idx - 1),
-                  usedBase := h.usedBase.set! o false, usedIndex := h.usedIndex.set! o false }
+        match h2.off hd, h2.off oldLen, h2.off (newLen - 1) with
+        | .ok ho, .ok oo, .ok no =>
+          let tail := h2.prev.getD ho 0
+          match h2.off tail with
+          | .error e => .error e
+          | .ok to =>
+            let prev1 := h2.prev.setIfInBounds oo tail
+            let next1 := h2.next.setIfInBounds to oldLen
+            let next2 := next1.setIfInBounds no hd
+            let prev2 := prev1.setIfInBounds ho (newLen - 1)
+            .ok { h2 with next := next2, prev := prev2 }
+        | .error e, _, _ => .error e
+        | _, .error e, _ => .error e
+        | _, _, .error e => .error e
+      | none =>
+        match h2.off oldLen, h2.off (newLen - 1) with
+        | .ok oo, .ok no =>
+          .ok { h2 with prev := h2.prev.setIfInBounds oo (newLen - 1),
+                        next := h2.next.setIfInBounds no oldLen,
+                        head := some oldLen }
+        | .error e, _ => .error e
+        | _, .error e => .error e
+
+/-- The indices `vacant_iter()` yields, in order (fuel = capacity + 1). -/
+def Helper.vacantFrom (h : Helper) (hd : Nat) : Nat → Nat → Except BuildErr (List Nat)
+  | 0, _ => .ok []
+  | fuel + 1, cur =>
+    match h.off cur with
+    | .error e => .error e
+    | .ok o =>
+      let nx := h.next.getD o 0
+      if nx = hd then .ok [cur] else
+      match h.vacantFrom hd fuel nx with
+      | .error e => .error e
+      | .ok l => .ok (cur :: l)
+
+def Helper.vacant (h : Helper) : Except BuildErr (List Nat) :=
   match h.head with
-  | some hd =>
-    let tail := h.prev[← h.off hd]!
-    h := { h with prev := h.prev.set! (← h.off oldLen) tail }
-    h := { h with next := h.next.set! (← h.off tail) oldLen }
-    h := { h with next := h.next.set! (← h.off (newLen - 1)) hd }
-    h := { h with prev := h.prev.set! (← h.off hd) (newLen - 1) }
-  | none =>
-    h := { h with prev := h.prev.set! (← h.off oldLen) (newLen - 1) }
-    h := { h with next := h.next.set! (← h.off (newLen - 1)) oldLen }
-    h := { h with head := some oldLen }
-  return h
+  | none => .ok []
+  | some hd => h.vacantFrom hd (h.cap + 1) hd
 
-/-- The indices `vacant_iter()` yields, in order. -/
-def Helper.vacant (h : Helper) : Except BuildErr (Array Nat) := do
-  let mut res : Array Nat := #[]
-  match h.head with
-  | none => return res
-  | some hd =>
-    let mut cur := hd
-    for _ in [0:h.cap + 1] do
-      res := res.push cur
-      let nx := h.next[← h.off cur]!
-      if nx == hd then break
-      cur := nx
-    return res
+/-- `unused_base_in_block`: the first BASE value of the block that no state uses. -/
+def Helper.unusedBaseFrom (h : Helper) : Nat → Nat → Except BuildErr (Option Nat)
+  | 0, _ => .ok none
+  | n + 1, base =>
+    match h.isUsedBase base with
+    | .error e => .error e
+    | .ok false => .ok (some base)
+    | .ok true => h.unusedBaseFrom n (base + 1)
 
-def Helper.unusedBaseInBlock (h : Helper) (b : Nat) : Except BuildErr (Option Nat) := do
-  for base in [b * h.blockLen:(b + 1) * h.blockLen] do
-    if !(← h.isUsedBase base) then return some base
-  return none
+def Helper.unusedBaseInBlock (h : Helper) (b : Nat) : Except BuildErr (Option Nat) :=
+  h.unusedBaseFrom h.blockLen (b * h.blockLen)
 
-/-! ### Byte-wise layout -/
-
-structure Cfg where
-  kind : Nat
-  nfb : Nat
-
-def u24Max : Nat := Gen.u24Max
-def bytewiseBlockLen : Nat := Gen.blockLen
-
-def stDefaultB : St := ⟨0, 0, 0, 0⟩
-/-- `State::default()` of the char-wise automaton: CHECK and FAIL are the dead index. -/
-def stDefaultC : St :=
-  ⟨Gen.charStateDefault.1, Gen.charStateDefault.2.1, Gen.charStateDefault.2.2.1, Gen.charStateDefault.2.2.2⟩
-
-def removeInvalidChecks (states : Array St) (h : Helper) (b : Nat) : Except BuildErr (Array St) := do
-  let mut states := states
-  match ← h.unusedBaseInBlock b with
-  | none => return states
-  | some ub =>
-    for c in [0:256] do
-      let idx := ub ^^^ c
-      let vacant ← if idx == rootIdx || idx == deadIdx then pure true else do pure (!(← h.isUsedIndex idx))
-      if vacant then
-        if idx < states.size then states := states.modify idx fun s => { s with check := c }
-        else throw (.panic "states[idx] out of range")
-    return states
-
-/-- Final pass shared by both variants: fail and output position of every state. -/
-def setFailsAndOutputs (states : Array St) (idMap fail opos : Array Nat) (limitOpos : Bool) :
-    Except BuildErr (Array St) := do
-  let mut states := states
-  for i in [0:idMap.size] do
-    if i == deadId then continue
-    let idx := idMap[i]!
-    let op := opos[i]!
-    if limitOpos && op > u24Max then throw .automatonScale
-    let f := fail[i]!
-    let fidx := if f == deadId then deadIdx else idMap[f]!
-    if idx < states.size then states := states.modify idx fun s => { s with opos := op, fail := fidx }
-    else throw (.panic "states[idx] out of range")
-  return states
-
-def buildBytewise (cfg : Cfg) (ns : Array (FNode V)) (fail opos : Array Nat) :
-    Except BuildErr (Array St) := do
-  let mut states : Array St := Array.replicate bytewiseBlockLen stDefaultB
-  let mut h ← Helper.new bytewiseBlockLen cfg.nfb
-  h ← h.pushBlock
-  h ← h.useIndex rootIdx
-  h ← h.useIndex deadIdx
-  let mut idMap : Array Nat := Array.replicate ns.size deadIdx
-  idMap := idMap.set! rootId rootIdx
-  let mut stack : Array Nat := #[rootId]
-  for _ in [0:ns.size + 1] do
-    if stack.isEmpty then break
-    let s := stack.back!
-    stack := stack.pop
-    let sidx := idMap[s]!
-    let edges := ns[s]!.edges
-    if edges.isEmpty then continue
-    let l0 := edges[0]!.1
-    -- find_base
-    let mut base := states.size
-    for idx in ← h.vacant do
-      let b := idx ^^^ l0
-      if ← h.isUsedBase b then continue
-      let mut ok := true
-      for e in edges do
-        if ← h.isUsedIndex (b ^^^ e.1) then ok := false; break
-      if ok && b != 0 then base := b; break
-    if base ≥ states.size then
-      -- extend_array
-      if states.size > u32Max - bytewiseBlockLen then throw .automatonScale
-      match h.droppedBlock with
-      | some cb => states ← removeInvalidChecks states h cb
-      | none => pure ()
-      h ← h.pushBlock
-      states := states ++ Array.replicate bytewiseBlockLen stDefaultB
-    for e in edges do
-      let ci := base ^^^ e.1
-      h ← h.useIndex ci
-      if ci < states.size then states := states.modify ci fun st => { st with check := e.1 }
-      else throw (.panic "states[child_idx] out of range")
-      idMap := idMap.set! e.2 ci
-      stack := stack.push e.2
-    states := states.modify sidx fun st => { st with base := base }
-    h ← h.useBase base
-  states ← setFailsAndOutputs states idMap fail opos true
-  for b in [h.activeStart:h.numBlocks] do
-    states ← removeInvalidChecks states h b
-  return states
-
-/-! ### Code mapper and char-wise layout -/
+/-! ### Code mapper -/
 
 structure Mapper where
   table : Array Nat
@@ -305,72 +222,263 @@ def insertByCode (x : Nat × Nat) : List (Nat × Nat) → List (Nat × Nat)
   | [] => [x]
   | y :: r => if x.1 < y.1 then x :: y :: r else y :: insertByCode x r
 
-def buildCharwise (cfg : Cfg) (m : Mapper) (ns : Array (FNode V)) (fail opos : Array Nat) :
-    Except BuildErr (Array St) := do
-  let blockLen := max 2 (Nat.nextPowerOfTwo m.alphaSize)
-  let mut states : Array St := Array.replicate blockLen stDefaultC
-  let mut h ← Helper.new blockLen cfg.nfb
-  h ← h.pushBlock
-  h ← h.useIndex rootIdx
-  h ← h.useIndex deadIdx
-  let mut idMap : Array Nat := Array.replicate ns.size deadIdx
-  idMap := idMap.set! rootId rootIdx
-  let mut stack : Array Nat := #[rootId]
-  for _ in [0:ns.size + 1] do
-    if stack.isEmpty then break
-    let s := stack.back!
-    stack := stack.pop
-    let sidx := idMap[s]!
-    let edges := ns[s]!.edges
-    if edges.isEmpty then continue
-    let mut mapped : List (Nat × Nat) := []
-    for e in edges.reverse do
-      match m.get e.1 with
-      | some code => mapped := insertByCode (code, e.2) mapped
-      | none => throw (.panic "mapper.get(label).unwrap()")
-    let c0 := (mapped.head?.map (·.1)).getD 0
-    let mut base := states.size ^^^ c0
-    for idx in ← h.vacant do
-      let b := idx ^^^ c0
-      let mut ok := true
-      for e in mapped do
-        if ← h.isUsedIndex (b ^^^ e.1) then ok := false; break
-      if ok && b != 0 then base := b; break
-    if states.size ≤ base then
-      if states.size > u32Max - blockLen then throw .automatonScale
-      h ← h.pushBlock
-      states := states ++ Array.replicate blockLen stDefaultC
-    for e in mapped do
-      let ci := base ^^^ e.1
-      h ← h.useIndex ci
-      if ci < states.size then states := states.modify ci fun st => { st with check := sidx }
-      else throw (.panic "states[child_idx] out of range")
-      idMap := idMap.set! e.2 ci
-      stack := stack.push e.2
-    states := states.modify sidx fun st => { st with base := base }
-  setFailsAndOutputs states idMap fail opos false
+/-! ### Layout (both variants) -/
+
+structure Cfg where
+  kind : Nat
+  nfb : Nat
+
+def u24Max : Nat := Gen.u24Max
+def bytewiseBlockLen : Nat := Gen.blockLen
+
+def stDefaultB : St := ⟨0, 0, 0, 0⟩
+/-- `State::default()` of the char-wise automaton: CHECK and FAIL are the dead index. -/
+def stDefaultC : St :=
+  ⟨Gen.charStateDefault.1, Gen.charStateDefault.2.1, Gen.charStateDefault.2.2.1, Gen.charStateDefault.2.2.2⟩
+
+def stDefault (v : Variant) : St :=
+  match v with
+  | .bytewise => stDefaultB
+  | .charwise => stDefaultC
+
+/-- State of the layout pass: the array, the helper, and `state_id_map` (by path). -/
+structure Lay where
+  states : Array St
+  h : Helper
+  idx : Std.HashMap (List Nat) Nat
+
+/-- `self.states[i].f(..)` with Rust's bounds-checked indexing. -/
+def setSt (states : Array St) (i : Nat) (f : St → St) : Except BuildErr (Array St) :=
+  if i < states.size then .ok (states.modify i f) else .error (.panic "states[i]: index out of bounds")
+
+/-- The loop body of `remove_invalid_checks` for the labels `c, c+1, …`. -/
+def sanitiseLoop (h : Helper) (ub : Nat) : Nat → Nat → Array St → Except BuildErr (Array St)
+  | 0, _, states => .ok states
+  | n + 1, c, states =>
+    let i := ub ^^^ c
+    let vacant : Except BuildErr Bool :=
+      if i = rootIdx ∨ i = deadIdx then .ok true else
+      match h.isUsedIndex i with
+      | .error e => .error e
+      | .ok u => .ok (!u)
+    match vacant with
+    | .error e => .error e
+    | .ok false => sanitiseLoop h ub n (c + 1) states
+    | .ok true =>
+      match setSt states i (fun s => { s with check := c }) with
+      | .error e => .error e
+      | .ok states' => sanitiseLoop h ub n (c + 1) states'
+
+/-- `remove_invalid_checks(block_idx)`. -/
+def removeInvalidChecks (states : Array St) (h : Helper) (b : Nat) : Except BuildErr (Array St) :=
+  match h.unusedBaseInBlock b with
+  | .error e => .error e
+  | .ok none => .ok states
+  | .ok (some ub) => sanitiseLoop h ub 256 0 states
+
+/-- `check_valid_base` (byte-wise: the BASE must be unused) / `verify_base` (char-wise). -/
+def allUnused (h : Helper) (b : Nat) : List Nat → Except BuildErr Bool
+  | [] => .ok true
+  | c :: cs =>
+    match h.isUsedIndex (b ^^^ c) with
+    | .error e => .error e
+    | .ok true => .ok false
+    | .ok false => allUnused h b cs
+
+def baseOk (v : Variant) (h : Helper) (b : Nat) (codes : List Nat) : Except BuildErr Bool :=
+  match v with
+  | .bytewise =>
+    match h.isUsedBase b with
+    | .error e => .error e
+    | .ok true => .ok false
+    | .ok false =>
+      match allUnused h b codes with
+      | .error e => .error e
+      | .ok r => .ok (r && b != 0)
+  | .charwise =>
+    match allUnused h b codes with
+    | .error e => .error e
+    | .ok r => .ok (r && b != 0)
+
+/-- The `for idx in helper.vacant_iter()` loop of `find_base`. -/
+def findBaseIn (v : Variant) (h : Helper) (c0 : Nat) (codes : List Nat) : List Nat → Except BuildErr (Option Nat)
+  | [] => .ok none
+  | i :: r =>
+    match baseOk v h (i ^^^ c0) codes with
+    | .error e => .error e
+    | .ok true => .ok (some (i ^^^ c0))
+    | .ok false => findBaseIn v h c0 codes r
+
+/-- `find_base`: a valid BASE among the vacant indices, else the fallback just past the array. -/
+def findBase (v : Variant) (lay : Lay) (codes : List Nat) : Except BuildErr Nat :=
+  let c0 := codes.headD 0
+  match lay.h.vacant with
+  | .error e => .error e
+  | .ok vac =>
+    match findBaseIn v lay.h c0 codes vac with
+    | .error e => .error e
+    | .ok (some b) => .ok b
+    | .ok none =>
+      match v with
+      | .bytewise => .ok lay.states.size
+      | .charwise => .ok (lay.states.size ^^^ c0)
+
+/-- `extend_array`. -/
+def extendArray (v : Variant) (lay : Lay) : Except BuildErr Lay :=
+  if lay.states.size > u32Max - lay.h.blockLen then .error .automatonScale else
+  let sanitised : Except BuildErr (Array St) :=
+    match v, lay.h.droppedBlock with
+    | .bytewise, some cb => removeInvalidChecks lay.states lay.h cb
+    | _, _ => .ok lay.states
+  match sanitised with
+  | .error e => .error e
+  | .ok states =>
+    match lay.h.pushBlock with
+    | .error e => .error e
+    | .ok h' => .ok { lay with states := states ++ Array.replicate lay.h.blockLen (stDefault v), h := h' }
+
+/-- The `for (c, child) in edges` loop: claim the child's slot, write its CHECK, record its index. -/
+def placeChildren (v : Variant) (sidx base : Nat) : List (Nat × List Nat) → Lay → Except BuildErr Lay
+  | [], lay => .ok lay
+  | (c, child) :: rest, lay =>
+    let ci := base ^^^ c
+    match lay.h.useIndex ci with
+    | .error e => .error e
+    | .ok h' =>
+      let chk := match v with
+        | .bytewise => c
+        | .charwise => sidx
+      match setSt lay.states ci (fun st => { st with check := chk }) with
+      | .error e => .error e
+      | .ok states' => placeChildren v sidx base rest ⟨states', h', lay.idx.insert child ci⟩
+
+/-- The labels of the edges of `u` with their codes, in the order the builder visits them:
+label order for the byte-wise builder, `mapped.sort_by(code)` for the char-wise one. -/
+def insertByCodeP (x : Nat × List Nat) : List (Nat × List Nat) → List (Nat × List Nat)
+  | [] => [x]
+  | y :: r => if x.1 < y.1 then x :: y :: r else y :: insertByCodeP x r
+
+def edgeCodes (v : Variant) (m : Mapper) (t : Trie V) (u : List Nat) : Except BuildErr (List (Nat × List Nat)) :=
+  match v with
+  | .bytewise => .ok ((t.childPaths u).map fun w => (w.getLastD 0, w))
+  | .charwise =>
+    (t.childPaths u).reverse.foldl (fun (acc : Except BuildErr (List (Nat × List Nat))) (w : List Nat) =>
+      match acc, m.get (w.getLastD 0) with
+      | .error e, _ => .error e
+      | .ok l, some code => .ok (insertByCodeP (code, w) l)
+      | .ok _, none => .error (.panic "mapper.get(label).unwrap()")) (.ok [])
+
+/-- One iteration of `while let Some(state_id) = stack.pop()`. -/
+def layoutStep (v : Variant) (m : Mapper) (t : Trie V) (u : List Nat) (stack : List (List Nat)) (lay : Lay) :
+    Except BuildErr (List (List Nat) × Lay) :=
+  match edgeCodes v m t u with
+  | .error e => .error e
+  | .ok [] => .ok (stack, lay)
+  | .ok edges =>
+    let sidx := lay.idx.getD u deadIdx
+    let codes := edges.map (·.1)
+    match findBase v lay codes with
+    | .error e => .error e
+    | .ok base =>
+      let extended : Except BuildErr Lay :=
+        if lay.states.size ≤ base then extendArray v lay else .ok lay
+      match extended with
+      | .error e => .error e
+      | .ok lay1 =>
+        match placeChildren v sidx base edges lay1 with
+        | .error e => .error e
+        | .ok lay2 =>
+          match setSt lay2.states sidx (fun st => { st with base := base }) with
+          | .error e => .error e
+          | .ok states' =>
+            let helper : Except BuildErr Helper :=
+              match v with
+              | .bytewise => lay2.h.useBase base
+              | .charwise => .ok lay2.h
+            match helper with
+            | .error e => .error e
+            | .ok h' => .ok ((edges.map (·.2)).reverse ++ stack, { lay2 with states := states', h := h' })
+
+/-- The DFS loop over the stack of state ids. -/
+def layoutLoop (v : Variant) (m : Mapper) (t : Trie V) : Nat → List (List Nat) → Lay → Except BuildErr Lay
+  | _, [], lay => .ok lay
+  | 0, _ :: _, _ => .error (.panic "layout loop does not terminate")
+  | fuel + 1, u :: stack, lay =>
+    match layoutStep v m t u stack lay with
+    | .error e => .error e
+    | .ok (stack', lay') => layoutLoop v m t fuel stack' lay'
+
+/-- "Sets fail & output_pos values": one write per trie node. -/
+def setFailOut (v : Variant) (nfa : Nfa V) : List (List Nat) → Lay → Except BuildErr Lay
+  | [], lay => .ok lay
+  | u :: rest, lay =>
+    let i := lay.idx.getD u deadIdx
+    let op := nfa.out.opos.getD u 0
+    if v = .bytewise ∧ op > u24Max then .error .automatonScale else
+    let f := match nfa.fail.get u with
+      | .dead => deadIdx
+      | .node w => lay.idx.getD w deadIdx
+    match setSt lay.states i (fun s => { s with opos := op, fail := f }) with
+    | .error e => .error e
+    | .ok states' => setFailOut v nfa rest { lay with states := states' }
+
+/-- The final `for closed_block_idx in helper.active_block_range()` loop (byte-wise only). -/
+def sanitiseBlocks (h : Helper) : Nat → Nat → Array St → Except BuildErr (Array St)
+  | 0, _, states => .ok states
+  | n + 1, b, states =>
+    match removeInvalidChecks states h b with
+    | .error e => .error e
+    | .ok states' => sanitiseBlocks h n (b + 1) states'
+
+/-- `init_array` + `build_double_array`. -/
+def buildLayout (v : Variant) (cfg : Cfg) (m : Mapper) (t : Trie V) (nfa : Nfa V) : Except BuildErr (Array St) :=
+  let blockLen := match v with
+    | .bytewise => bytewiseBlockLen
+    | .charwise => max 2 (Nat.nextPowerOfTwo m.alphaSize)
+  match Helper.new blockLen cfg.nfb with
+  | .error e => .error e
+  | .ok h0 =>
+    match h0.pushBlock with
+    | .error _ => .error (.panic "push_block().unwrap()")
+    | .ok h1 =>
+      match h1.useIndex rootIdx with
+      | .error e => .error e
+      | .ok h2 =>
+        match h2.useIndex deadIdx with
+        | .error e => .error e
+        | .ok h3 =>
+          let lay0 : Lay := ⟨Array.replicate blockLen (stDefault v), h3, ({} : Std.HashMap (List Nat) Nat).insert [] rootIdx⟩
+          match layoutLoop v m t (t.size + 1) [[]] lay0 with
+          | .error e => .error e
+          | .ok lay1 =>
+            match setFailOut v nfa (t.paths []) lay1 with
+            | .error e => .error e
+            | .ok lay2 =>
+              match v with
+              | .charwise => .ok lay2.states
+              | .bytewise =>
+                sanitiseBlocks lay2.h (lay2.h.numBlocks - lay2.h.activeStart) lay2.h.activeStart lay2.states
 
 /-! ### The whole pipeline -/
 
 /-- `build_with_values` of either builder, from label-level patterns. -/
-def buildDA (variant : Variant) (cfg : Cfg) (P : List (LPat V)) : Except BuildErr (DA V) := do
-  if cfg.nfb = 0 then throw (.panic "assert!(n >= 1)")
+def buildDA (variant : Variant) (cfg : Cfg) (P : List (LPat V)) : Except BuildErr (DA V) :=
+  if cfg.nfb = 0 then .error (.panic "assert!(n >= 1)") else
   -- char-wise: an insertion error returns before the mapper exists; otherwise the mapper is
   -- built from *all* patterns (shadowed ones included), then the emptiness test runs
-  let acc ← NfaAcc.init.addAll (cfg.kind == 2) P
-  let mapper := match variant with
-    | .bytewise => (⟨#[], 0⟩ : Mapper)
-    | .charwise => Mapper.build P
-  if acc.len = 0 then throw .invalidArgument
-  if variant == .bytewise && acc.len > u24Max then throw .automatonScale
-  let ns := acc.trie.flatten
-  let nfa := buildNfa acc.trie (cfg.kind != 0)
-  let (fail, opos) := nfaArrays acc.trie nfa
-  let outs := nfa.out.outs
-  let states ← match variant with
-    | .bytewise => buildBytewise cfg ns fail opos
-    | .charwise => buildCharwise cfg mapper ns fail opos
-  return { variant := variant, states := states, outputs := outs, mapTable := mapper.table,
-           alphaSize := mapper.alphaSize, kind := cfg.kind, numStates := ns.size - 1 }
+  match NfaAcc.init.addAll (cfg.kind == 2) P with
+  | .error e => .error e
+  | .ok acc =>
+    let mapper := match variant with
+      | .bytewise => (⟨#[], 0⟩ : Mapper)
+      | .charwise => Mapper.build P
+    if acc.len = 0 then .error .invalidArgument else
+    if variant = .bytewise ∧ acc.len > u24Max then .error .automatonScale else
+    let nfa := buildNfa acc.trie (cfg.kind != 0)
+    match buildLayout variant cfg mapper acc.trie nfa with
+    | .error e => .error e
+    | .ok states =>
+      .ok { variant := variant, states := states, outputs := nfa.out.outs, mapTable := mapper.table,
+            alphaSize := mapper.alphaSize, kind := cfg.kind, numStates := acc.trie.size }
 
 end Daac
